@@ -36,9 +36,11 @@ type rewriter struct {
 	pkg     *types.Package
 	n       int
 	changed bool
+	seams   bool
 	errs    []string
 	warns   []string
 	st      *stats
+	simrtUsed bool
 
 	owned    map[ast.Node]bool // comm statements of select clauses (handled by the select rewrite)
 	mapRange map[*ast.RangeStmt]bool
@@ -63,7 +65,12 @@ func (r *rewriter) errorf(pos token.Pos, format string, args ...any) {
 	r.errs = append(r.errs, fmt.Sprintf("%s: %s", r.fset.Position(pos), fmt.Sprintf(format, args...)))
 }
 
+var simrtUsedGlobal *bool
+
 func simrtCall(fn string, args ...ast.Expr) *ast.CallExpr {
+	if simrtUsedGlobal != nil {
+		*simrtUsedGlobal = true
+	}
 	return &ast.CallExpr{Fun: &ast.SelectorExpr{X: ast.NewIdent("simrt"), Sel: ast.NewIdent(fn)}, Args: args}
 }
 
@@ -93,6 +100,11 @@ var methodTable = map[string]string{
 	"(*sync.WaitGroup).Go":     "!",
 }
 
+// seamTable maps functions of un-instrumented packages to their substitutes in verif/sim/seams.
+var seamTable = map[string]string{
+	"github.com/AliyunContainerService/terway/pkg/link.GetDeviceNumber": "GetDeviceNumber",
+}
+
 func (r *rewriter) planCall(call *ast.CallExpr) {
 	sel, ok := call.Fun.(*ast.SelectorExpr)
 	if !ok {
@@ -117,6 +129,10 @@ func (r *rewriter) planCall(call *ast.CallExpr) {
 				r.callPlan[call] = &callPlan{fn: fn}
 			}
 		}
+		return
+	}
+	if sf, ok := seamTable[full]; ok {
+		r.callPlan[call] = &callPlan{fn: "seam:" + sf}
 		return
 	}
 	fn, ok := methodTable[full]
@@ -313,6 +329,11 @@ func (r *rewriter) post(c *astutil.Cursor) bool {
 	case *ast.CallExpr:
 		if p := r.callPlan[n]; p != nil {
 			r.changed = true
+			if strings.HasPrefix(p.fn, "seam:") {
+				r.seams = true
+				c.Replace(&ast.CallExpr{Fun: &ast.SelectorExpr{X: ast.NewIdent("simseam"), Sel: ast.NewIdent(strings.TrimPrefix(p.fn, "seam:"))}, Args: n.Args, Ellipsis: n.Ellipsis})
+				return true
+			}
 			switch p.fn {
 			case "Sleep":
 				r.st.Sleep++
@@ -625,6 +646,49 @@ func (r *rewriter) rewriteChanRange(n *ast.RangeStmt) ast.Stmt {
 	}}
 }
 
+func (r *rewriter) usesSimrt() bool {
+	st := *r.st
+	_ = st
+	return r.simrtUsed
+}
+
+// unusedImports lists imports no identifier of the file refers to any more.
+func unusedImports(f *ast.File) [][2]string {
+	used := map[string]bool{}
+	ast.Inspect(f, func(n ast.Node) bool {
+		if sel, ok := n.(*ast.SelectorExpr); ok {
+			if id, ok := sel.X.(*ast.Ident); ok {
+				used[id.Name] = true
+			}
+		}
+		return true
+	})
+	var out [][2]string
+	for _, imp := range f.Imports {
+		path := strings.Trim(imp.Path.Value, `"`)
+		name := ""
+		if imp.Name != nil {
+			name = imp.Name.Name
+			if name == "_" || name == "." {
+				continue
+			}
+		} else {
+			name = path[strings.LastIndex(path, "/")+1:]
+			if path != "time" && path != "github.com/AliyunContainerService/terway/pkg/link" {
+				continue // only imports the rewrite can orphan
+			}
+		}
+		if !used[name] {
+			n := ""
+			if imp.Name != nil {
+				n = imp.Name.Name
+			}
+			out = append(out, [2]string{n, path})
+		}
+	}
+	return out
+}
+
 // stripPositions clears positions inside freshly built subtrees so that the printer does
 // not try to interleave old comments into them. (Original nodes keep theirs.)
 
@@ -684,13 +748,22 @@ func main() {
 				labeled: map[ast.Stmt]bool{}, callPlan: map[*ast.CallExpr]*callPlan{}, recv2: map[*ast.UnaryExpr]bool{},
 				chanType: map[ast.Expr]types.Type{},
 			}
+			simrtUsedGlobal = &r.simrtUsed
 			astutil.Apply(f, r.pre, r.post)
 			allErrs = append(allErrs, r.errs...)
 			allWarns = append(allWarns, r.warns...)
 			if !r.changed {
 				continue
 			}
-			astutil.AddNamedImport(p.Fset, f, "simrt", simrtPath)
+			if r.seams {
+				astutil.AddNamedImport(p.Fset, f, "simseam", "verif/sim/seams")
+			}
+			if r.usesSimrt() {
+				astutil.AddNamedImport(p.Fset, f, "simrt", simrtPath)
+			}
+			for _, imp := range unusedImports(f) {
+				astutil.DeleteNamedImport(p.Fset, f, imp[0], imp[1])
+			}
 			var buf bytes.Buffer
 			// drop free-floating comments inside function bodies: freshly built nodes carry
 			// no positions and the printer could misplace them; keep doc/directive comments.
